@@ -169,7 +169,7 @@ def rule_inventory(S, res, phases):
         n += 1
         if l not in OBL:
             res.bad("R2.0", "label|%s" % l, "receive of an unknown protocol message %r: no verification obligation is recorded for it" % l, fl(sites[0].sp))
-    res.floor("receive_labels_reachable_from_mpc", n, 24)
+    res.floor("receive_labels_reachable_from_mpc", n, 16)
     return labs, cl
 
 
